@@ -21,8 +21,21 @@ What is an INPUT here (not modelled):
 Loops are structural recursion; the two genuinely recursive procedures (`read_cnf`,
 `get_hook_rec`) take fuel, and Props/C14 proves the fuel never runs out (`include_terminates`,
 `expand_total`).
+
+Fuel is a proof device and says nothing about the NATIVE STACK or about WORK: both procedures are
+plain recursive functions in the code, so their recursion depth and the number of calls are
+resources.  The code bounds them by three constants of main.rs, regenerated into Gen/Consts.lean on
+every run: MAX_HOOK_GROUP_DEPTH (`get_hook_rec`, config.rs:133-135), MAX_HOOK_GROUP_MEMBERS (the
+budget of visited members `Config::get_hook` hands to `get_hook_rec`, config.rs:96, 107-110) and
+MAX_INCLUDE_DEPTH (`read_cnf`, config.rs:762-765).  The three tests are modelled where the code has
+them, with the same comparison, the budget as a threaded counter; Props/C19Depth proves the bounds
+on depth, calls and result size that follow, over the cost-counting twins of Model/ConfigDepth.lean;
+the procedures as they were before are `OldVariants.expandHookNoLimit` / `readCnfNoLimit` (before
+537f12e: no test) and `OldVariants.expandHookSizeLimit` (537f12e: depth test and a test on the size
+of the RESULT of a group, which groups of empty groups escape).
 -/
 import AcmedVerif.Gen.GlobalMerge
+import AcmedVerif.Gen.Consts
 
 namespace AcmedVerif.Config
 
@@ -259,6 +272,10 @@ inductive Err
   | rateLimitNotFound (n : String)   -- "{name}: rate limit not found"   config.rs:81
   | hookNotFound (n : String)        -- "{name}: hook not found"         config.rs:132
   | groupCycle (n : String)          -- "{name}: hook group contains itself" config.rs:120
+  | groupTooDeep (n : String)        -- "{name}: hook groups are nested too deeply" config.rs:134
+  | tooManyMembers (n : String)      -- "{name}: hook groups contain too many members" config.rs:108
+  | groupTooBig (n : String)         -- "{name}: hook group contains too many hooks" (537f12e only: OldVariants)
+  | includeTooDeep (p : Path)        -- "{}: includes are nested too deeply"  config.rs:763
   | duplicateCertId (id : String)    -- "{crt_id}: duplicate certificate id" main_event_loop.rs:129
   | accountNotFound (n : String)     -- "{}: account not found"          main_event_loop.rs:135
   deriving Repr, DecidableEq, Inhabited
@@ -297,21 +314,32 @@ def includeLoop (rec : Path → List Path → Except Err (Config × List Path)) 
     | .error e => .error e                                  -- `?` :756
     | .ok (add, loaded') => includeLoop rec ps (mergeCfg cfg add) loaded'
 
+/-- `crate::MAX_INCLUDE_DEPTH` (main.rs). -/
+def maxIncludeDepth : Nat := Gen.MAX_INCLUDE_DEPTH
+
 /-- `read_cnf`.  `loaded` is the set of loaded canonical paths kept as a list in insertion order
-(new paths are appended), so on return it is also the order in which files were first read. -/
+(new paths are appended), so on return it is also the order in which files were first read.
+`depth` is the third argument of the code (0 for the main file, `depth + 1` for an included file):
+the test `depth > MAX_INCLUDE_DEPTH` comes after `canonicalize` and BEFORE the "already loaded" test,
+so a file met deeper than the limit is an error even when it has been loaded before (a cycle that
+closes deeper than the limit, a file included again at the end of a long chain).  A file that exists
+but cannot be opened / read / decoded is absent from `Files` like one that does not exist: met deeper
+than the limit the code reports the depth and the model the missing file — an error either way (the
+kind of a load error is compared nowhere). -/
 def readCnf {π : Type} (files : Files π) (resolve : Path → π → List Path) :
-    Nat → Path → List Path → Except Err (Config × List Path)
-  | fuel, path, loaded =>
+    Nat → Nat → Path → List Path → Except Err (Config × List Path)
+  | fuel, depth, path, loaded =>
     match lookupFile files path with
-    | none => .error (.fileNotFound path)                   -- :738-740 (or :747-753)
+    | none => .error (.fileNotFound path)                   -- :759-761 (or :772-778)
     | some fc =>
-      if path ∈ loaded then .ok (Config.empty, loaded)      -- :741-744
+      if depth > maxIncludeDepth then .error (.includeTooDeep path)   -- :762-765
+      else if path ∈ loaded then .ok (Config.empty, loaded)  -- :766-769
       else
         match fuel with
         | 0 => .error .outOfFuel
         | fuel + 1 =>
-          includeLoop (readCnf files resolve fuel) (includePaths resolve path fc) fc.toConfig
-            (loaded ++ [path])                              -- :745, :752, :754-788
+          includeLoop (readCnf files resolve fuel (depth + 1)) (includePaths resolve path fc)
+            fc.toConfig (loaded ++ [path])                  -- :770, :777, :779-813
 
 /-- `dispatch_global_env_vars` (config.rs:792-804): each certificate's map becomes the global map
 overridden by the certificate's own entries. -/
@@ -326,7 +354,7 @@ def loadFuel {π : Type} (files : Files π) : Nat := files.length + 1
 /-- `from_file` (config.rs:806-813) without `init_directories`. -/
 def fromFile {π : Type} (files : Files π) (resolve : Path → π → List Path) (main : Path) :
     Except Err Config :=
-  match readCnf files resolve (loadFuel files) main [] with
+  match readCnf files resolve (loadFuel files) 0 main [] with   -- `read_cnf(&path, &mut loaded_files, 0)`
   | .error e => .error e
   | .ok (cfg, _) => .ok (dispatchGlobalEnv cfg)
 
@@ -337,7 +365,7 @@ def loadTree (files : List (Nat × FileContent (List Nat))) (main : Nat) : Excep
 /-- Same, also returning the loaded files in first-read (depth-first) order. -/
 def loadTreeOrder (files : List (Nat × FileContent (List Nat))) (main : Nat) :
     Except Err (Config × List Nat) :=
-  match readCnf files (fun _ ps => ps) (loadFuel files) main [] with
+  match readCnf files (fun _ ps => ps) (loadFuel files) 0 main [] with
   | .error e => .error e
   | .ok (cfg, loaded) => .ok (dispatchGlobalEnv cfg, loaded)
 
@@ -403,8 +431,8 @@ def effectiveDirectory (cfg : Config) (c : Certificate) : Setting :=
 
 /-! ## Hook / group resolution (config.rs:95-133) -/
 
-/-- The `for hook_name in grp.hooks` loop (config.rs:124-127) and the loops of
-`Certificate::get_hooks` / `Account::get_hooks` (config.rs:577-584, 413-426). -/
+/-- The loops of `Certificate::get_hooks` / `Account::get_hooks` (config.rs:591-598, 425-440): each
+name is expanded by `Config::get_hook`, with a budget of its own. -/
 def expandNames (rec : String → Except Err (List Hook)) : List String → Except Err (List Hook)
   | [] => .ok []
   | n :: ns =>
@@ -415,29 +443,57 @@ def expandNames (rec : String → Except Err (List Hook)) : List String → Exce
       | .error e => .error e
       | .ok rest => .ok (hs ++ rest)
 
-/-- `get_hook_rec`: hooks are searched BEFORE groups; `parents` is the path of group names from the
-root of the expansion (pushed :122, popped :128 — so on the success path a sibling sees the same
-`parents`, which is why passing `parents ++ [name]` down is the same thing). -/
-def expandHook (cfg : Config) : Nat → List String → String → Except Err (List Hook)
-  | fuel, parents, name =>
-    match findHook cfg name with
-    | some h => .ok [h]                                     -- :100-116
-    | none =>
-      match findGroup cfg name with
-      | none => .error (.hookNotFound name)                 -- :132
-      | some g =>
-        if name ∈ parents then .error (.groupCycle name)    -- :119-121
-        else
-          match fuel with
-          | 0 => .error .outOfFuel
-          | fuel + 1 => expandNames (expandHook cfg fuel (parents ++ [name])) g.hooks  -- :122-129
+/-- `crate::MAX_HOOK_GROUP_DEPTH`, `crate::MAX_HOOK_GROUP_MEMBERS` (main.rs). -/
+def maxHookGroupDepth : Nat := Gen.MAX_HOOK_GROUP_DEPTH
+def maxHookGroupMembers : Nat := Gen.MAX_HOOK_GROUP_MEMBERS
+
+/-- The `for hook_name in grp.hooks` loop of `get_hook_rec` (config.rs:138-141); `acc` is `ret`,
+`budget` the counter behind `&mut usize`, which every call of `rec` (= `get_hook_rec`) may lower:
+what one member leaves is what the next one finds. -/
+def groupLoop (rec : Nat → String → Except Err (List Hook × Nat)) :
+    List String → List Hook → Nat → Except Err (List Hook × Nat)
+  | [], acc, budget => .ok (acc, budget)                    -- :143
+  | n :: ns, acc, budget =>
+    match rec budget n with
+    | .error e => .error e                                  -- `?` :139
+    | .ok (hs, budget') => groupLoop rec ns (acc ++ hs) budget'   -- :140
+
+/-- `get_hook_rec`.  First of all the budget: a call that finds it at 0 is refused, any other call
+lowers it by one — BEFORE the name is looked up, so every member visited counts, whether it is a
+hook, a group, or nothing (config.rs:107-110).  Then hooks are searched BEFORE groups; `parents` is
+the path of group names from the root of the expansion (pushed :136, popped :142 — so on the success
+path a sibling sees the same `parents`, which is why passing `parents ++ [name]` down is the same
+thing).  On entering a group: first the cycle test, then the depth test
+`parents.len() >= MAX_HOOK_GROUP_DEPTH`.  Returns the hooks and what is left of the budget (on an
+error the budget does not matter: the error reaches `get_hook` through the `?`s). -/
+def expandHook (cfg : Config) : Nat → List String → Nat → String → Except Err (List Hook × Nat)
+  | fuel, parents, budget, name =>
+    match budget with
+    | 0 => .error (.tooManyMembers name)                    -- :107-109
+    | budget + 1 =>                                         -- :110
+      match findHook cfg name with
+      | some h => .ok ([h], budget)                         -- :111-127
+      | none =>
+        match findGroup cfg name with
+        | none => .error (.hookNotFound name)               -- :146
+        | some g =>
+          if name ∈ parents then .error (.groupCycle name)  -- :130-132
+          else if parents.length ≥ maxHookGroupDepth then .error (.groupTooDeep name)   -- :133-135
+          else
+            match fuel with
+            | 0 => .error .outOfFuel
+            | fuel + 1 =>
+              groupLoop (expandHook cfg fuel (parents ++ [name])) g.hooks [] budget   -- :136-143
 
 /-- Enough fuel for any group graph (`expand_total`). -/
 def expandFuel (cfg : Config) : Nat := cfg.groups.length + 1
 
-/-- `Config::get_hook` (config.rs:95-97). -/
+/-- `Config::get_hook` (config.rs:95-98): a fresh budget for every name a certificate or an account
+lists. -/
 def getHook (cfg : Config) (name : String) : Except Err (List Hook) :=
-  expandHook cfg (expandFuel cfg) [] name
+  match expandHook cfg (expandFuel cfg) [] maxHookGroupMembers name with
+  | .error e => .error e
+  | .ok (hs, _) => .ok hs
 
 /-- `Certificate::get_hooks` / `Account::get_hooks`. -/
 def getHooks (cfg : Config) (names : List String) : Except Err (List Hook) :=
